@@ -192,12 +192,16 @@ Ltac rd_norm_in H :=
 Ltac cases_if :=
   repeat match goal with |- context [if ?b then _ else _] => destruct b eqn:? end.
 
+(* the same, closing contradictory branches as soon as they appear *)
+Ltac cases_if_prune :=
+  repeat (match goal with |- context [if ?b then _ else _] => destruct b eqn:? end; try lia).
+
 (* prove an equation between cell lists pointwise *)
 Ltac pw :=
   apply list_eq_rd;
   [ rd_norm; try lia
   | let i := fresh "i" in let Hi := fresh "Hi" in
-    intros i Hi; rd_norm_in Hi; rd_norm; cases_if; try lia; try reflexivity; try (f_equal; lia) ].
+    intros i Hi; rd_norm_in Hi; rd_norm; cases_if_prune; try lia; try reflexivity; try (f_equal; lia) ].
 
 Lemma rd_in_nth (l : list cell) i : 0 <= i < len l -> rd l i = nth (Z.to_nat i) l cNil.
 Proof.
